@@ -223,6 +223,18 @@ new.append(entry("C09", level="other",
                  "ut0311.Broadcast: write deadline, no read deadline, time.Sleep(timeout) - not under contract"],
     explanation="Decided clauses, as socket/lock typestate of the three sequential driver methods BroadcastTo, SendUDP, SendTCP: exactly one socket is opened per call (none on an early failure) and it is closed on every return path (`closed`); every blocking write and read happens while a deadline is set on the socket, and the dial is given a deadline (`guarded`, `dial`); the process-wide send lock is taken iff the bind port is non-zero and released on every path (`lock`); the only exits of the receive loop are an accepted datagram or a read error (`accepted`, loop invariant), i.e. the call never gives up early on its own. Level 'other': the timing and goroutine clauses of the property cannot be expressed as function contracts."))
 
+
+new.append(entry("C10", level="other",
+    functions=["uhppote.(*uhppote).listen$1", "uhppote.(*uhppote).listen", "messages.lemmaDecodeEvent", "messages.lemmaDecodeEventV6_62", "messages.lemmaDecodeGetStatusResponse"],
+    scope=[r"^uhppote\.\(\*uhppote\)\.listen", r"^messages\.lemmaDecode(Event|EventV6_62|GetStatusResponse)#"],
+    pinned_file="pins_uhppote.json", pinned_labels=["contract", "macro"],
+    assumptions=COMMON_ASSUME + ["Listener callbacks are counted by ghost counters (interface contracts Listener.OnError / OnEvent / OnConnected); a channel send is a ghost event of the function (chansends / chansent)",
+                                 "driver.Listen starts the receive loop and returns (interface contract without obligations)"],
+    not_decided=["exactly-once / in-order delivery ACROSS the two goroutines and the unbuffered channel, shutdown ordering, re-binding immediately: statements about interleavings",
+                 "the dispatch goroutine of Listen (maps a received event to types.Status and calls OnEvent): its body is not under contract - an infinite receive loop whose per-iteration statement has no handle in a function contract; the same field mapping is verified for GetStatus (C02)",
+                 "ut0311.Listen (receive loop with goroutines)"],
+    explanation="Decided per datagram: the receive handler (closure listen$1) produces for EVERY byte string exactly one of - one send of a freshly decoded event on the pipe, and then the datagram was 64 bytes, protocol id 0x17 or 0x19, function code 0x20, non-zero serial number, boolean bytes 0/1, and every field of the event is the protocol decoding of the datagram - or exactly one OnError callback and no send; it never calls OnEvent/OnConnected. listen() calls OnConnected exactly once, after driver.Listen returned nil, and returns nil; on a driver error it returns the error without OnConnected. Level 'other': the cross-goroutine clauses cannot be expressed as function contracts."))
+
 ids = {e["id"] for e in new}
 out = [p for p in props if p["id"] not in ids] + new
 out.sort(key=lambda p: p["id"])
